@@ -34,6 +34,9 @@ CHECKS = {
  "C22": dict(engine="B", category="translation_validation", technique="enumerated duration dependencies through the real transfer_model for accept/reject; SMT equivalence (z3) of delay_arguments_function outputs with the source delay() arguments",
    text="Durations drawing on each variable category alone and in pairs, inside/outside for-loops, variable or expression delayed, under several option sets: rejection must be exactly when a disallowed category occurs; for accepted models z3 proves every (expression, duration) output equal to the source arguments for all values.",
    note="'depends on' = syntactic occurrence; bounded family.", ref="4/C22"),
+ "C23": dict(engine="A", category="model_checking", technique="CrossHair symbolic execution (z3) of the real generate -> get_component -> get_indexed_symbol -> get_integer with the subscript literals as symbolic integers (unbounded for scalar subscripts); verdict 'Confirmed over all paths' per shard, counterexamples replayed concretely",
+   text="Scalar subscripts x[i], A[i,j], q[i].w[j], s[i] on a scalar, x[i] on the left-hand side: for ALL integers the real generator either raises (exactly when outside 1..n) or the residual selects exactly the Modelica element. Slices a:b (and a:s:b in thorough) and for-equation ranges: every bound in a window around the valid range, same assertion with the selected element set compared on a vector of distinct primes.",
+   note="Values are realised at the SWIG boundary/numpy.arange (for-loop bounds are forked per value); formatting of symbolic values in error messages is cut; an empty range may be rejected or give the empty selection.", ref="4/C23"),
  "C24": dict(engine="B", category="translation_validation", technique="generated Python read back with Python's ast (its precedence) -> z3, proved equal to lhs-rhs of the flat equation for all values; classification lists and name injectivity checked structurally",
    text="For every expression tree over + - * / ^, unary minus, der, sin/cos/tan, time (depth 2, thorough 3) the module generated by the real SymPy backend must compile and each self.eqs entry is proved by z3 equal to the flat equation's residual; x/v/p/c/u/y lists match the flat classification; distinct names must map to distinct symbols.",
    note="Python's ast gives the precedence SymPy sees; replay executes the generated module with the real SymPy.", ref="4/C24"),
